@@ -2,13 +2,28 @@
    Written from the property text and the control-spec grammar of ADDRMAP:
      "650" SP "ADDRMAP" SP Address SP NewAddress SP Expiry [SP Error] [SP GMTExpiry] [SP KEY=VALUE]...
      NewAddress = address / "<error>";  Expiry = DQUOTE ISOTime DQUOTE / "NEVER" (local time);
-     GMTExpiry = "EXPIRES=" DQUOTE ISOTime DQUOTE (authoritative when present).
+     GMTExpiry = "EXPIRES=" DQUOTE ISOTime DQUOTE (authoritative when present); the older
+     all-positional form  Address NewAddress DQUOTE LocalTime DQUOTE DQUOTE UTCTime DQUOTE  carries the
+     UTC expiry as a fourth quoted time: the UTC time is the one that counts, never the local one.
    Independent of Model/ and Gen/.
 
    Time is counted in ticks of 1/8 second (Z) from a fixed origin.  An ADDRMAP line is handed
    over as its list of tokens (what shlex.split returns); a token is a literal prefix followed
    optionally by one time stamp "%Y-%m-%d %H:%M:%S" (carried as its tick value: the calendar
-   conversion is Python's strftime/strptime on both sides and is trusted). *)
+   conversion is Python's strftime/strptime on both sides and is trusted).
+
+   Listeners may be ACTIVE: a listener carries two scripts (what it does inside addrmap_added and
+   inside addrmap_expired): look the name of the callback up, look a fixed key up, feed the map a newer
+   mapping for the same name, raise.  A script runs in callbacks made by the map on behalf of Tor or of
+   the clock; in callbacks caused by a listener's own feed every listener only records the call.
+   What the statement demands inside a callback (decided here, see notes/C20.md):
+     - the transition is complete before the first listener hears of it: a lookup made from inside the
+       callback is answered as a lookup made right after the operation would be (an expired mapping is
+       no longer returned under any key);
+     - a mapping fed from inside a callback is an event like any other (a new name is announced to
+       every listener, an update is silent, an error mapping for a held name is announced 'expired');
+     - every listener hears every transition exactly once, also the listeners registered after one
+       that raised. *)
 From Coq Require Import List Bool Ascii Arith NArith ZArith Lia.
 From TxVerif Require Import Lib.Bytes.
 Import ListNotations.
@@ -16,28 +31,41 @@ Open Scope N_scope.
 
 Record tok := { t_pre : bytes; t_time : option Z }.
 
+(* the expiry of a mapping fed from inside a callback: never, or whole seconds from the current second *)
+Inductive fexp := FNever | FIn (secs : N).
+
+Inductive act :=
+| AFindName                       (* find(name of the callback) *)
+| AFindKey (k : bytes)            (* find(k) *)
+| AFeed (ip : bytes) (x : fexp)   (* update('<name> <ip> ...'): ip may be <error> *)
+| ARaise.                         (* raise *)
+
+Record beh := { b_added : list act; b_expired : list act }.
+
 Inductive op :=
 | OEv (ts : list tok)      (* one ADDRMAP line (event or address-mappings/all line) *)
 | OAdvance (dt : N)        (* dt ticks pass; the reactor runs whatever is due *)
 | OFind (k : bytes)        (* AddrMap.find(k) *)
-| OAddL (l : N).           (* AddrMap.add_listener(listener number l) *)
+| OAddL (l : N) (b : beh). (* AddrMap.add_listener(listener number l, which behaves as b) *)
 
 Inductive obs :=
 | EFound (n ip : bytes) (e : option Z)    (* the Addr found: .name, str(.ip), .expires (None = never) *)
 | ENotFound                               (* KeyError *)
 | EAdded (l : N) (n ip : bytes)           (* listener l: addrmap_added(addr) with addr.name, str(addr.ip) *)
 | EExpired (l : N) (n : bytes)            (* listener l: addrmap_expired(name) *)
-| ERaised.                                (* any other exception *)
+| ERaised                                 (* an exception *)
+| ESub (e : obs).                         (* e was observed from inside a listener's callback *)
 
 Definition oz_eqb (a b : option Z) : bool := option_eqb Z.eqb a b.
 
-Definition obs_eqb (a b : obs) : bool :=
+Fixpoint obs_eqb (a b : obs) : bool :=
   match a, b with
   | EFound n i e, EFound n' i' e' => beqb n n' && beqb i i' && oz_eqb e e'
   | ENotFound, ENotFound => true
   | EAdded l n i, EAdded l' n' i' => N.eqb l l' && beqb n n' && beqb i i'
   | EExpired l n, EExpired l' n' => N.eqb l l' && beqb n n'
   | ERaised, ERaised => true
+  | ESub x, ESub y => obs_eqb x y
   | _, _ => false
   end.
 
@@ -60,6 +88,7 @@ Inductive sexp := XNever | XAt (t : Z).
 Record sev := { v_name : bytes; v_addr : option bytes (* None = <error> *); v_exp : sexp }.
 
 Definition is_word (t : tok) : bool := match t_time t with None => true | Some _ => false end.
+Definition plain_bytes (b : bytes) : bool := negb (memb EQC b) && match b with [] => false | _ => true end.
 Definition plain_word (t : tok) : bool :=
   is_word t && negb (memb EQC (t_pre t)) && match t_pre t with [] => false | _ => true end.
 
@@ -74,29 +103,41 @@ Definition gmt_of (rest : list tok) : list Z :=
   flat_map (fun t => if beqb (t_pre t) w_EXPIRES
                      then match t_time t with Some g => [g] | None => [] end else []) rest.
 
+(* a bare quoted time *)
+Definition bare_time (t : tok) : option Z :=
+  match t_pre t, t_time t with [], Some g => Some g | _, _ => None end.
+(* what follows the Expiry: an optional positional UTC time, then the keyword arguments *)
+Definition split_pos (rest : list tok) : option Z * list tok :=
+  match rest with
+  | d :: r => match bare_time d with Some g => (Some g, r) | None => (None, rest) end
+  | [] => (None, [])
+  end.
+
 Definition parse_ev (ts : list tok) : option sev :=
   match ts with
-  | a :: b :: c :: rest =>
+  | a :: b :: c :: rest0 =>
+      let '(pos, rest) := split_pos rest0 in
       if plain_word a && plain_word b && forallb kw_ok rest then
         let addr := if beqb (t_pre b) w_ERROR then None else Some (t_pre b) in
         match t_time c with
         | None =>
             if beqb (t_pre c) w_NEVER then
-              match gmt_of rest with
-              | [] => Some {| v_name := t_pre a; v_addr := addr; v_exp := XNever |}
-              | _ => None
+              match gmt_of rest, pos with
+              | [], None => Some {| v_name := t_pre a; v_addr := addr; v_exp := XNever |}
+              | _, _ => None
               end
             else None
         | Some l =>
             match t_pre c with
             | [] =>
-                match gmt_of rest with
-                | [] => match rest with      (* old form without GMT expiry: nothing may follow *)
-                        | [] => Some {| v_name := t_pre a; v_addr := addr; v_exp := XAt l |}
-                        | _ => None
-                        end
-                | [g] => Some {| v_name := t_pre a; v_addr := addr; v_exp := XAt g |}
-                | _ => None
+                match gmt_of rest, pos with
+                | [], None => match rest with      (* local time only: nothing may follow *)
+                              | [] => Some {| v_name := t_pre a; v_addr := addr; v_exp := XAt l |}
+                              | _ => None
+                              end
+                | [], Some g => Some {| v_name := t_pre a; v_addr := addr; v_exp := XAt g |}  (* positional UTC *)
+                | [g], _ => Some {| v_name := t_pre a; v_addr := addr; v_exp := XAt g |}      (* EXPIRES= *)
+                | _, _ => None
                 end
             | _ => None
             end
@@ -104,10 +145,6 @@ Definition parse_ev (ts : list tok) : option sev :=
       else None
   | _ => None
   end.
-
-Definition op_in_scope (o : op) : bool :=
-  match o with OEv ts => match parse_ev ts with Some _ => true | None => false end | _ => true end.
-Definition in_scope (h : list op) : bool := forallb op_in_scope h.
 
 (* ---- what Tor's mappings are: per name, the latest one ---- *)
 Record mp := { m_ip : bytes; m_exp : sexp }.
@@ -120,23 +157,72 @@ Definition due_exp (now : Z) (e : sexp) : bool :=
   match e with XNever => false | XAt t => (t <=? now)%Z end.
 Definition due_in (now : Z) (m : smap) (n : bytes) : bool :=
   match m n with Some v => due_exp now (m_exp v) | None => false end.
-(* time passes: every mapping whose expiry is reached goes *)
-Definition sweep (now : Z) (m : smap) : smap :=
-  fun k => match m k with
-           | Some v => if due_exp now (m_exp v) then None else Some v
-           | None => None
-           end.
 
 (* s_map holds a name from the event that introduces it until an error mapping for it arrives or
    time passes beyond its expiry ("held"); a mapping whose expiry is already reached when it arrives
    is still held until time next passes (the reactor runs), but it is not LIVE: lookups must fail.
-   s_names: every name an event has mentioned so far, in order of first appearance. *)
-Record sst := { s_now : Z; s_map : smap; s_names : list bytes; s_lst : list N }.
+   s_names: every name an event has mentioned so far, in order of first appearance.
+   s_lst: the listeners in registration order, each with its behaviour. *)
+Record sst := { s_now : Z; s_map : smap; s_names : list bytes; s_lst : list (N * beh) }.
 
 Definition s0 : sst := {| s_now := 0%Z; s_map := fun _ => None; s_names := []; s_lst := [] |}.
 
 Definition memB (k : bytes) (l : list bytes) : bool := existsb (beqb k) l.
 Definition memN (k : N) (l : list N) : bool := existsb (N.eqb k) l.
+Definition names_add (n : bytes) (l : list bytes) : list bytes := if memB n l then l else l ++ [n].
+Definition ids (s : sst) : list N := map fst (s_lst s).
+
+(* one mapping of Tor's arrives *)
+Definition ev_step (s : sst) (v : sev) : sst :=
+  {| s_now := s_now s;
+     s_map := match v_addr v with
+              | None => sdel (v_name v) (s_map s)
+              | Some a => sset (v_name v) {| m_ip := a; m_exp := v_exp v |} (s_map s)
+              end;
+     s_names := names_add (v_name v) (s_names s); s_lst := s_lst s |}.
+
+(* which notification it causes *)
+Inductive kind := KAdded | KExpired.
+Definition ev_kind (s : sst) (v : sev) : option kind :=
+  match v_addr v, s_map s (v_name v) with
+  | None, Some _ => Some KExpired      (* error mapping for a held name: dropped at once *)
+  | Some _, None => Some KAdded        (* new name *)
+  | _, _ => None                       (* update of a held name; error mapping for a name not held *)
+  end.
+
+(* ---- what a listener's script does to Tor's mappings: only AFeed matters ---- *)
+Definition fexp_to (now : Z) (x : fexp) : sexp :=
+  match x with FNever => XNever | FIn secs => XAt (8 * (now / 8 + Z.of_N secs))%Z end.
+Definition feed_ev (now : Z) (n ip : bytes) (x : fexp) : sev :=
+  {| v_name := n; v_addr := if beqb ip w_ERROR then None else Some ip; v_exp := fexp_to now x |}.
+
+Definition act_step (s : sst) (n : bytes) (a : act) : sst :=
+  match a with AFeed ip x => ev_step s (feed_ev (s_now s) n ip x) | _ => s end.
+Fixpoint script_step (s : sst) (n : bytes) (acts : list act) : sst :=
+  match acts with
+  | [] => s
+  | ARaise :: _ => s                     (* the rest of the script does not run *)
+  | a :: r => script_step (act_step s n a) n r
+  end.
+Definition script_of (k : kind) (b : beh) : list act :=
+  match k with KAdded => b_added b | KExpired => b_expired b end.
+Definition is_raise (a : act) : bool := match a with ARaise => true | _ => false end.
+(* the listeners are called one after the other, each runs its script -- whatever the listeners
+   before it did (a listener that raises does not keep the later ones from being called) *)
+Fixpoint note_fold (k : kind) (ls : list (N * beh)) (s : sst) (n : bytes) : sst :=
+  match ls with
+  | [] => s
+  | lb :: r => note_fold k r (script_step s n (script_of k (snd lb))) n
+  end.
+Definition note_step (k : kind) (s : sst) (n : bytes) : sst := note_fold k (s_lst s) s n.
+
+Definition del_name (s : sst) (n : bytes) : sst :=
+  {| s_now := s_now s; s_map := sdel n (s_map s); s_names := s_names s; s_lst := s_lst s |}.
+(* one name expires: it goes, then the listeners hear of it *)
+Definition exp_one (s : sst) (n : bytes) : sst := note_step KExpired (del_name s n) n.
+Definition bump_s (s : sst) (dt : N) : sst :=
+  {| s_now := (s_now s + Z.of_N dt)%Z; s_map := s_map s; s_names := s_names s; s_lst := s_lst s |}.
+Definition due_names (s : sst) : list bytes := filter (due_in (s_now s) (s_map s)) (s_names s).
 
 Definition spec_step (s : sst) (o : op) : sst :=
   match o with
@@ -144,24 +230,21 @@ Definition spec_step (s : sst) (o : op) : sst :=
       match parse_ev ts with
       | None => s
       | Some v =>
-          let names := if memB (v_name v) (s_names s) then s_names s else s_names s ++ [v_name v] in
-          let m := match v_addr v with
-                   | None => sdel (v_name v) (s_map s)
-                   | Some a => sset (v_name v) {| m_ip := a; m_exp := v_exp v |} (s_map s)
-                   end in
-          {| s_now := s_now s; s_map := m; s_names := names; s_lst := s_lst s |}
+          match ev_kind s v with
+          | Some k => note_step k (ev_step s v) (v_name v)
+          | None => ev_step s v
+          end
       end
-  | OAdvance dt =>
-      let now' := (s_now s + Z.of_N dt)%Z in
-      {| s_now := now'; s_map := sweep now' (s_map s); s_names := s_names s; s_lst := s_lst s |}
+  | OAdvance dt => let s1 := bump_s s dt in fold_left exp_one (due_names s1) s1
   | OFind _ => s
-  | OAddL l =>
+  | OAddL l b =>
       {| s_now := s_now s; s_map := s_map s; s_names := s_names s;
-         s_lst := if memN l (s_lst s) then s_lst s else s_lst s ++ [l] |}
+         s_lst := if memN l (ids s) then s_lst s else s_lst s ++ [(l, b)] |}
   end.
 
 Definition spec_after (h : list op) : sst := fold_left spec_step h s0.
 
+(* ---- what must be observed ---- *)
 Definition live (s : sst) (n : bytes) : option mp :=
   match s_map s n with
   | Some m => if due_exp (s_now s) (m_exp m) then None else Some m
@@ -179,9 +262,102 @@ Definition chunk_eqb (a b : list obs) : bool := list_eqb obs_eqb a b.
 Fixpoint nodupB (l : list bytes) : bool :=
   match l with [] => true | x :: l' => negb (memB x l') && nodupB l' end.
 
-(* the names whose expiry the first listener heard in this chunk *)
+(* the names whose expiry the first listener heard in this chunk (calls caused by a feed are ESub) *)
 Definition expired_names (first : N) (es : list obs) : list bytes :=
   flat_map (fun e => match e with EExpired l n => if N.eqb l first then [n] else [] | _ => [] end) es.
+
+(* the answer [e] to find(k) in state s.  k a name seen in some event: found iff live, with the latest
+   address and expiry.  k not a name: not found, or the mapping returned belongs to a live name and
+   carries that name's latest address/expiry (nothing expired is ever returned under any key). *)
+Definition find_ok (s : sst) (k : bytes) (e : obs) : bool :=
+  if memB k (s_names s) then
+    match live s k with
+    | Some m => obs_eqb e (EFound k (m_ip m) (exp_opt (m_exp m)))
+    | None => obs_eqb e ENotFound
+    end
+  else
+    match e with
+    | ENotFound => true
+    | EFound n ip x =>
+        match live s n with
+        | Some m => beqb ip (m_ip m) && oz_eqb x (exp_opt (m_exp m))
+        | None => false
+        end
+    | _ => false
+    end.
+
+(* [strip p es]: es without its prefix p *)
+Fixpoint strip (p es : list obs) : option (list obs) :=
+  match p, es with
+  | [], _ => Some es
+  | x :: p', y :: es' => if obs_eqb x y then strip p' es' else None
+  | _ :: _, [] => None
+  end.
+
+(* the calls a mapping fed from inside a callback causes: every listener only records them *)
+Definition feed_expect (s : sst) (v : sev) : list obs :=
+  match ev_kind s v with
+  | Some KExpired => map ESub (expired_block (ids s) (v_name v))
+  | Some KAdded => map ESub (added_block (ids s) (v_name v)
+                                         (match v_addr v with Some a => a | None => [] end))
+  | None => []
+  end.
+
+(* a script run for the callback about name n, in state s, reads its observations off the front of es *)
+Fixpoint script_ok (s : sst) (n : bytes) (acts : list act) (es : list obs) : option (list obs) :=
+  match acts with
+  | [] => Some es
+  | a :: r =>
+      match a with
+      | AFindName =>
+          match es with ESub e :: es' => if find_ok s n e then script_ok s n r es' else None | _ => None end
+      | AFindKey k =>
+          match es with ESub e :: es' => if find_ok s k e then script_ok s n r es' else None | _ => None end
+      | AFeed ip x =>
+          let v := feed_ev (s_now s) n ip x in
+          match strip (feed_expect s v) es with
+          | Some es' => script_ok (ev_step s v) n r es'
+          | None => None
+          end
+      | ARaise => match es with ESub ERaised :: es' => Some es' | _ => None end
+      end
+  end.
+
+Definition head_of (k : kind) (l : N) (n ip : bytes) : obs :=
+  match k with KAdded => EAdded l n ip | KExpired => EExpired l n end.
+
+(* one transition is announced: every listener hears it once, in registration order, and does what
+   its script says *)
+Fixpoint notify_ok (k : kind) (ls : list (N * beh)) (s : sst) (n ip : bytes) (es : list obs)
+  : option (list obs) :=
+  match ls with
+  | [] => Some es
+  | lb :: ls' =>
+      match es with
+      | e :: es' =>
+          if obs_eqb e (head_of k (fst lb) n ip) then
+            match script_ok s n (script_of k (snd lb)) es' with
+            | Some es'' => notify_ok k ls' (script_step s n (script_of k (snd lb))) n ip es''
+            | None => None
+            end
+          else None
+      | [] => None
+      end
+  end.
+
+Definition is_nil {A} (l : list A) : bool := match l with [] => true | _ => false end.
+Definition all_read (r : option (list obs)) : bool := match r with Some [] => true | _ => false end.
+
+(* time passed: the names in [names] expire one after the other *)
+Fixpoint adv_ok (names : list bytes) (s : sst) (es : list obs) : bool :=
+  match names with
+  | [] => is_nil es
+  | n :: r =>
+      match notify_ok KExpired (s_lst s) (del_name s n) n [] es with
+      | Some es' => adv_ok r (exp_one s n) es'
+      | None => false
+      end
+  end.
 
 (* what must be observed for operation [o] performed in spec state [s] *)
 Definition chunk_ok (s : sst) (o : op) (es : list obs) : bool :=
@@ -193,46 +369,33 @@ Definition chunk_ok (s : sst) (o : op) (es : list obs) : bool :=
           let n := v_name v in
           match v_addr v, s_map s n with
           | None, Some _ =>          (* error mapping for a held name: dropped at once, one 'expired' *)
-              chunk_eqb es (expired_block (s_lst s) n)
+              all_read (notify_ok KExpired (s_lst s) (ev_step s v) n [] es)
           | None, None =>            (* error mapping for a name not held: nothing, or added-then-expired *)
               match es with
               | [] => true
-              | EAdded _ _ ip :: _ => chunk_eqb es (added_block (s_lst s) n ip ++ expired_block (s_lst s) n)
+              | EAdded _ _ ip :: _ => chunk_eqb es (added_block (ids s) n ip ++ expired_block (ids s) n)
               | _ => false
               end
           | Some a, Some _ => chunk_eqb es []                        (* update: no notification *)
-          | Some a, None => chunk_eqb es (added_block (s_lst s) n a)  (* new name: one 'added' *)
+          | Some a, None =>                                          (* new name: one 'added' *)
+              all_read (notify_ok KAdded (s_lst s) (ev_step s v) n a es)
           end
       end
   | OAdvance dt =>
-      let now' := (s_now s + Z.of_N dt)%Z in
-      let expect := filter (due_in now' (s_map s)) (s_names s) in
+      let s1 := bump_s s dt in
+      let expect := due_names s1 in
       match s_lst s with
       | [] => chunk_eqb es []
-      | l0 :: _ =>
-          let names := expired_names l0 es in
-          chunk_eqb es (flat_map (expired_block (s_lst s)) names)
-          && nodupB names
+      | lb0 :: _ =>
+          (* exactly the held names whose expiry is reached, each once, in any order *)
+          let names := expired_names (fst lb0) es in
+          nodupB names
           && forallb (fun n => memB n expect) names
           && forallb (fun n => memB n names) expect
+          && adv_ok names s1 es
       end
-  | OFind k =>
-      if memB k (s_names s) then
-        match live s k with
-        | Some m => chunk_eqb es [EFound k (m_ip m) (exp_opt (m_exp m))]
-        | None => chunk_eqb es [ENotFound]
-        end
-      else
-        match es with
-        | [ENotFound] => true
-        | [EFound n ip e] =>
-            match live s n with
-            | Some m => beqb ip (m_ip m) && oz_eqb e (exp_opt (m_exp m))
-            | None => false
-            end
-        | _ => false
-        end
-  | OAddL _ => chunk_eqb es []
+  | OFind k => match es with [e] => find_ok s k e | _ => false end
+  | OAddL _ _ => chunk_eqb es []
   end.
 
 Fixpoint oracle_from (s : sst) (h : list op) (tr : list (list obs)) : bool :=
@@ -244,13 +407,36 @@ Fixpoint oracle_from (s : sst) (h : list op) (tr : list (list obs)) : bool :=
 
 Definition oracle (h : list op) (tr : list (list obs)) : bool := oracle_from s0 h tr.
 
+(* ---- the envelope ---- *)
+(* a script: mappings are fed only from inside 'expired' callbacks, with a plain address word and an
+   expiry that is never or at least one second ahead (a mapping fed already expired from inside the
+   callback that announces its expiry would make the clock loop for ever) *)
+Definition act_ok (feeds : bool) (a : act) : bool :=
+  match a with
+  | AFeed ip x => feeds && plain_bytes ip && match x with FNever => true | FIn secs => 1 <=? secs end
+  | _ => true
+  end.
+Definition beh_ok (b : beh) : bool :=
+  forallb (act_ok false) (b_added b) && forallb (act_ok true) (b_expired b).
+
+Definition op_in_scope (o : op) : bool :=
+  match o with
+  | OEv ts => match parse_ev ts with Some _ => true | None => false end
+  | OAddL _ b => beh_ok b
+  | _ => true
+  end.
+Definition in_scope (h : list op) : bool := forallb op_in_scope h.
+
 (* ---- input classes of the open findings (DESIGN 3.5), mirrored in harness/drive_C20.py ---- *)
 
 (* (C20-F1, an <error> mapping for a name that is not held, was repaired in /repo: a1d3211) *)
 
 (* C20-F2: some string is used both as a name and as a dictionary key for an address
-   (the address text, or "<error>") *)
+   (the address text, or "<error>"), in an event or in a listener's script *)
 Definition ev_key (v : sev) : bytes := match v_addr v with Some a => a | None => w_ERROR end.
+Definition feed_keys (acts : list act) : list bytes :=
+  flat_map (fun a => match a with AFeed ip _ => [ip] | _ => [] end) acts.
+Definition beh_keys (b : beh) : list bytes := feed_keys (b_added b) ++ feed_keys (b_expired b).
 Fixpoint ev_names (h : list op) : list bytes :=
   match h with
   | [] => []
@@ -261,17 +447,33 @@ Fixpoint ev_addrs (h : list op) : list bytes :=
   match h with
   | [] => []
   | OEv ts :: h' => match parse_ev ts with Some v => ev_key v :: ev_addrs h' | None => ev_addrs h' end
+  | OAddL _ b :: h' => beh_keys b ++ ev_addrs h'
   | _ :: h' => ev_addrs h'
   end.
 Definition key_collision (h : list op) : bool :=
   existsb (fun n => memB n (ev_addrs h)) (ev_names h).
 
-(* C20-F3: a lookup while some held mapping has already reached its expiry and no time has passed
-   since (the mapping arrived already expired) *)
+(* C20-F3: a lookup (by the caller, or from inside a callback) while some held mapping has already
+   reached its expiry and its turn to be dropped has not come: the mapping arrived already expired and
+   no time has passed since, or several mappings fall due in the same advance of the clock and a
+   listener looks a key up while the first ones are announced *)
+Definition any_due (s : sst) : bool := existsb (due_in (s_now s) (s_map s)) (s_names s).
+Definition is_lookup (a : act) : bool := match a with AFindName | AFindKey _ => true | _ => false end.
+Definition lst_lookup (k : kind) (s : sst) : bool :=
+  existsb (fun lb => existsb is_lookup (script_of k (snd lb))) (s_lst s).
 Definition stale_lookup_op (s : sst) (o : op) : bool :=
   match o with
-  | OFind _ => existsb (due_in (s_now s) (s_map s)) (s_names s)
-  | _ => false
+  | OFind _ => any_due s
+  | OEv ts =>
+      match parse_ev ts with
+      | Some v => match ev_kind s v with
+                  | Some k => lst_lookup k s && any_due (ev_step s v)
+                  | None => false
+                  end
+      | None => false
+      end
+  | OAdvance dt => lst_lookup KExpired s && (2 <=? N.of_nat (length (due_names (bump_s s dt))))
+  | OAddL _ _ => false
   end.
 Fixpoint stale_lookup_from (s : sst) (h : list op) : bool :=
   match h with
@@ -279,3 +481,16 @@ Fixpoint stale_lookup_from (s : sst) (h : list op) : bool :=
   | o :: h' => stale_lookup_op s o || stale_lookup_from (spec_step s o) h'
   end.
 Definition stale_lookup (h : list op) : bool := stale_lookup_from s0 h.
+
+(* (C20-F4, a raising listener starved the listeners registered after it, was repaired in /repo:
+   a2f579a; AddrMap.notify logs the exception and goes on) *)
+
+(* ---- not a finding class: histories in which no listener feeds the map (used by the theorems about
+   what a lookup returns right after an event: a listener that feeds a newer mapping from inside the
+   callback changes that, rightly) ---- *)
+Fixpoint feedless (h : list op) : bool :=
+  match h with
+  | [] => true
+  | OAddL _ b :: h' => is_nil (beh_keys b) && feedless h'
+  | _ :: h' => feedless h'
+  end.
